@@ -52,18 +52,18 @@ Section Model.
   Definition rmin (a b : T) : T := if b <? a then b else if a <=? b then a else if a =? a then a else b.
   Definition sq (a : T) : T := a * a.
   Definition cube (a : T) : T := (a * a) * a.
-  Definition is_finite (a : T) : bool := (a - a) =? 0.
+  Definition is_finite (a : T) : bool := (a - a) =? zero.
   Definition is_infinite (a : T) : bool := negb (is_finite a) && (a =? a).
-  Definition nan : T := zero / 0.   (* NaN on binary64; never inspected by a theorem *)
+  Definition nan : T := zero / zero.   (* NaN on binary64; never inspected by a theorem *)
 
   (* ---------------------------------------------------------------- vectors *)
-  Definition vdot (a b : list T) : T := fold_left (fun acc xy => acc + fst xy * snd xy) (combine a b) 0.
+  Definition vdot (a b : list T) : T := fold_left (fun acc xy => acc + fst xy * snd xy) (combine a b) zero.
   Definition vadd (a b : list T) : list T := map2 (fun x y => x + y) a b.
   Definition vsub (a b : list T) : list T := map2 (fun x y => x - y) a b.
   Definition vscale (a : list T) (c : T) : list T := map (fun x => x * c) a.
-  Definition vsum (a : list T) : T := fold_left (fun acc x => acc + x) a 0.
-  Definition norm_inf (a : list T) : T := fold_left (fun acc x => rmax acc (oabs O x)) a 0.
-  Definition max_diff (a b : list T) : T := fold_left (fun acc x => rmax acc (oabs O x)) (vsub a b) 0.
+  Definition vsum (a : list T) : T := fold_left (fun acc x => acc + x) a zero.
+  Definition norm_inf (a : list T) : T := fold_left (fun acc x => rmax acc (oabs O x)) a zero.
+  Definition max_diff (a b : list T) : T := fold_left (fun acc x => rmax acc (oabs O x)) (vsub a b) zero.
   Definition zeros (n : nat) : list T := repeat zero n.
 
   (* ---------------------------------------------------------------- math/num.rs *)
@@ -87,7 +87,7 @@ Section Model.
         let better := match best with None => is_finite v || (zero <? v) | Some b => b <? v end in
         if better then argmax_from t (S pos) (Some v) pos else argmax_from t (S pos) best best_pos
     end.
-  Definition argmax (l : list T) : nat := argmax_from l zero None 0.
+  Definition argmax (l : list T) : nat := argmax_from l 0%nat None 0%nat.
 
   (* unique(): sort + dedup *)
   Fixpoint ins_uniq (v : T) (l : list T) : list T :=
@@ -110,24 +110,24 @@ Section Model.
     | x :: xs' => pdot_loop (acc + x * nth pos w zero) xs' w (S pos)
     end.
   Definition partial_dot (w row : list T) (v_col : nat) : T :=
-    pdot_loop zero row w v_col + nth (length row + v_col)%nat w 0.
+    pdot_loop zero row w v_col + nth (length row + v_col)%nat w zero.
 
   Definition ofnat (n : nat) : T := oofnat O n.
 
   (* The scalar functions are parameters of the `_gen` forms so that the theorems can speak about the
      code with the exact functions ln(1+e^x), 1/(1+e^-x) substituted for the overflow-safe ones. *)
   Definition penalty (alpha : T) (ws : list T) : T :=   (* 0.5 * alpha * sum w^2 *)
-    (half * alpha) * fold_left (fun acc w => acc + w * w) ws 0.
+    (half * alpha) * fold_left (fun acc w => acc + w * w) ws zero.
 
   Definition binary_f_gen (lse : T -> T) (p : nat) (x : list (list T)) (y : list nat) (alpha : T) (w : list T) : T :=
-    let f := fold_left (fun acc ry => let wx := partial_dot w (fst ry) zero in
+    let f := fold_left (fun acc ry => let wx := partial_dot w (fst ry) 0%nat in
                                      acc + (lse wx - ofnat (snd ry) * wx)) (combine x y) zero in
     if zero <? alpha then f + penalty alpha (firstn p w) else f.
 
   (* one entry of the gradient: j < p a weight, j = p the bias *)
   Definition binary_df_entry (sg : T -> T) (p : nat) (x : list (list T)) (y : list nat) (alpha : T) (w : list T) (j : nat) : T :=
     let g := fold_left (fun acc ry =>
-                          let wx := partial_dot w (fst ry) zero in
+                          let wx := partial_dot w (fst ry) 0%nat in
                           let dyi := ofnat (snd ry) - sg wx in
                           if (j <? p)%nat then acc - dyi * nth j (fst ry) zero else acc - dyi) (combine x y) zero in
     if (zero <? alpha) && (j <? p)%nat then g + alpha * nth j w zero else g.
@@ -143,7 +143,7 @@ Section Model.
   Definition multi_penalty (p k : nat) (alpha : T) (w : list T) : T :=
     (half * alpha) *
     fold_left (fun acc i => fold_left (fun acc2 j => let wi := nth (i * S p + j)%nat w zero in acc2 + wi * wi) (seq 0 p) acc)
-              (seq 0 k) 0.
+              (seq 0 k) zero.
 
   Definition multi_f_gen (sm : list T -> list T) (p k : nat) (x : list (list T)) (y : list nat) (alpha : T) (w : list T) : T :=
     let f := fold_left (fun acc ry => acc - oln O (nth (snd ry) (sm (scores p k w (fst ry))) zero)) (combine x y) zero in
@@ -170,7 +170,7 @@ Section Model.
 
   Fixpoint bt_finite (fuel : nat) (phi : T -> T) (a1 a2 fx1 : T) : T * T * T :=
     match fuel with
-    | O => (a1, a2, fx1)
+    | 0%nat => (a1, a2, fx1)
     | S k => if is_finite fx1 then (a1, a2, fx1)
              else let a1' := a2 in let a2' := a1' / two in bt_finite k phi a1' a2' (phi a2')
     end.
@@ -192,7 +192,7 @@ Section Model.
     : option (T * T) :=
     if (f0 + (bt_c1 P * a2) * df0) <? fx1 then
       match fuel with
-      | O => None
+      | 0%nat => None
       | S k =>
           let a_tmp := if negb (bt_third P) || first then bt_quad f0 df0 a2 fx1
                        else bt_cubic (bt_eps P) f0 df0 a1 a2 fx0 fx1 in
@@ -231,7 +231,7 @@ Section Model.
                  vadd s (vscale (nth i dxh []) (nth i al zero - beta)))
               idxs s.
   Definition tl_scaling (dxi dgi : list T) : T :=
-    vdot dxi dgi / fold_left (fun acc v => acc + sq (oabs O v)) dgi 0.
+    vdot dxi dgi / fold_left (fun acc v => acc + sq (oabs O v)) dgi zero.
 
   (* returns the direction and the updated twoloop_alpha array *)
   Definition two_loops (m iter : nat) (g : list T) (rho : list T) (dxh dgh : list (list T)) (al : list T)
@@ -239,14 +239,14 @@ Section Model.
     let idxs := tl_indices m iter in
     let '(q, al') := tl_loop1 rho dxh dgh idxs g al in
     let s0 := match iter with
-              | O => q
+              | 0%nat => q
               | S it => let i := (it mod m)%nat in vscale q (tl_scaling (nth i dxh []) (nth i dgh []))
               end in
     let s := tl_loop2 rho dxh dgh idxs al' s0 in
     (vscale s (- one), al').
 
   Definition init_state (m : nat) (x : list T) : lb_state :=
-    mkSt x x nan nan x x (repeat zero m) (repeat x m) (repeat x m) x (repeat zero m) O O x 1.
+    mkSt x x nan nan x x (repeat zero m) (repeat x m) (repeat x m) x (repeat zero m) 0%nat 0%nat x one.
 
   Section Objective.
     Variable f : list T -> T.
@@ -303,7 +303,7 @@ Section Model.
        and whether the loop ended by convergence (false: max_iter exhausted) *)
     Fixpoint opt_loop (fuel : nat) (st : lb_state) (trace : list step_rec) : option (lb_state * list step_rec * bool) :=
       match fuel with
-      | O => Some (st, rev trace, false)
+      | 0%nat => Some (st, rev trace, false)
       | S k =>
           match update_state st with
           | None => None
@@ -318,7 +318,7 @@ Section Model.
     Definition optimize (x0 : list T) : option (lb_state * list step_rec * bool) :=
       let st0 := init_state (lb_m L) x0 in
       let st := mkSt (st_x st0) (st_x_prev st0) (st_f st0) (st_f_prev st0) (df x0) (st_g_prev st0) (st_rho st0)
-                     (st_dxh st0) (st_dgh st0) (st_dx st0) (st_tla st0) O O (st_s st0) (st_alpha st0) in
+                     (st_dxh st0) (st_dgh st0) (st_dx st0) (st_tla st0) 0%nat 0%nat (st_s st0) (st_alpha st0) in
       if norm_inf (st_g st) <? lb_g_atol L then Some (st, [], true)
       else opt_loop (lb_max_iter L) st [].
   End Objective.
@@ -328,7 +328,7 @@ Section Model.
 
   Fixpoint split_rows (p k : nat) (w : list T) : list (list T) :=   (* reshape(k, p+1) of a row vector *)
     match k with
-    | O => []
+    | 0%nat => []
     | S k' => firstn (S p) w :: split_rows p k' (skipn (S p) w)
     end.
 
@@ -337,7 +337,7 @@ Section Model.
     if negb (Nat.eqb (length x) (length y)) then None else
     let classes := unique y in
     let k := length classes in
-    let yi := map (fun v => match position v classes with Some i => i | None => O end) y in
+    let yi := map (fun v => match position v classes with Some i => i | None => 0%nat end) y in
     if (k <? 2)%nat then None
     else if Nat.eqb k 2 then
       match optimize (binary_f p x yi alpha) (binary_df p x yi alpha) L B (zeros (S p)) with
@@ -355,7 +355,7 @@ Section Model.
   (* class index chosen for one query row *)
   Definition predict_index (M : lr_model) (row : list T) : nat :=
     if Nat.eqb (lr_k M) 2 then
-      if half <? sigmoid (vdot row (nth O (lr_coef M) []) + nth O (lr_intercept M) zero) then 1%nat else O
+      if half <? sigmoid (vdot row (nth 0%nat (lr_coef M) []) + nth 0%nat (lr_intercept M) zero) then 1%nat else 0%nat
     else
       argmax (map2 (fun c b => vdot row c + b) (lr_coef M) (lr_intercept M)).
   Definition lr_predict (M : lr_model) (x : list (list T)) : list T :=
